@@ -423,6 +423,9 @@ func (e *Engine) CheckProperty(prop, tier, verifDir string, verbose, writeEviden
 							visit(callee) // contract-less: inlined or unknown; look through it
 							continue
 						}
+						if c.Inline {
+							visit(callee) // verified on its own AND inlined by its callers: look through it as well
+						}
 						if c.External || c.NoBody || c.Trusted || inKeys[k] {
 							continue
 						}
